@@ -75,6 +75,55 @@ def run_case(case):
             "dg": (obs["verdict"], obs["escaped"], sorted(obs["status"].items()))}
 
 
+# ---- a hook excludes a scenario whose steps would fail ------------------------------------------------------
+def hookskip_case(case):
+    """the before_scenario / scenario-level before_tag hook of ONE scenario calls scenario.skip(); that scenario's first
+    step would fail / raise / be undefined / pending, everything else passes: the excluded scenario is "skipping of
+    other elements" - none of its step functions runs and the run reports success"""
+    prog, k, spath = case
+    obs = harness.run_case(prog, {}, faults={k: "skip"}, hooks=True)
+    v = []
+    hname = obs["hooks"][k][0] if k < len(obs["hooks"]) else "?"
+    if obs["escaped"]:
+        v.append(({"subcheck": "skip-by-hook", "clause": "exception-escapes-run", "exc": obs["escaped"], "hook": hname},
+                  "run() raised %s: %s" % (obs["escaped"], obs.get("escaped_msg"))))
+    else:
+        ran = [c for c in obs["calls"] if c[0] == spath]
+        if ran:
+            v.append(({"subcheck": "skip-by-hook", "clause": "steps-of-excluded-scenario-run", "hook": hname},
+                      "scenario %r was excluded by its %s hook, but its step functions were called: %r" % (spath, hname, ran)))
+        if obs["verdict"]:
+            v.append(({"subcheck": "skip-by-hook", "clause": "false-red", "hook": hname},
+                      "scenario %r (the only one with a non-passing step) was excluded by its %s hook, yet run() reports "
+                      "failure; statuses %r" % (spath, hname, sorted(obs["status"].items()))))
+    return {"v": v, "nt": digest(case), "out": ("hookskip", hname, obs["verdict"]),
+            "dg": (obs["verdict"], obs["calls"], sorted(obs["status"].items()))}
+
+
+def hookskip_cases(tier):
+    quick = tier == "quick"
+    shapes = [s_ for s_ in P.shapes(tier) if P.size(s_) <= (3 if quick else 4) and len(s_[3]) <= 2]
+    for shp in shapes:
+        base = (shp, P.SECOND_FEATURE)
+        allpos = P.positions((shp,))
+        for k, (name, spath) in enumerate(refrun.predict(base, {}, hooks=True).hooks):
+            if name != "before_scenario" or spath[0] != 0:
+                continue
+            first = None
+            if (spath, "s", 0) in allpos:
+                first = (spath, "s", 0)
+            else:
+                opath, ri = spath[:-1], spath[-1]
+                rows = [q for q in allpos if q[0] == opath and q[1] == "o" and q[2][2] == 0]
+                if ri < len(rows):
+                    first = rows[ri]
+            if first is None:
+                continue
+            for o in ("fail", "error", "undefined", "pending"):
+                pr = P.set_outcome((shp,), first, o)
+                yield ((pr[0], P.SECOND_FEATURE), k, spath)
+
+
 # ---- one runner object used for several runs (ModelRunner.run_model(features=...)) ---------------------------
 REUSE_FEATURES = {
     "pass": P.F((P.S(("pass", "pass")),)),
@@ -278,6 +327,8 @@ def run(ctx):
               name="exception classes around every except clause of Step.run, with and without @wip")
     ctx.sweep(run_case, runcases.combo_cases(ctx.tier), chunk=48,
               name="combinations of --stop / --dry-run / --wip / continue_after_failed_step / --tags")
+    ctx.sweep(hookskip_case, hookskip_cases(ctx.tier), chunk=32,
+              name="a scenario whose first step would fail is excluded by its own before hook (skip())")
     ctx.sweep(reuse_case, reuse_cases(ctx.tier), chunk=16,
               name="one ModelRunner object, several run_model(features=...) calls")
     ctx.sweep(main_exit_case, exit_cases(ctx.tier), chunk=2, name="exit code of main()/python -m behave")
